@@ -34,25 +34,26 @@ Deep3 == {<<BlobPart(1, 0, 4)>>, <<BlobPart(1, 1, 2)>>, <<BlobPart(1, 1, 2), Blo
 With(F, id, kind, ps) == (id :> Node(kind, ps)) @@ F
 WinParts(F, id) == {BytesPart(id, w[1], w[2]) : w \in Wins(SizeOf(F, id))}
 
-GTrees ==
-  CASE GMode = "g1" -> {With(GBase, Root, "file", ps) :
-                           ps \in SeqsUpTo(AllLeaves, IF GWide THEN 3 ELSE 2) \cup [1..3 -> KeyLeaves \cup {BlobPart(2, 0, 3)}] \cup {<<>>}}
-    [] GMode = "g2" ->
-         UNION {LET F2 == With(GBase, 102, "bytes", p2) IN
-                {With(F2, Root, "file", pre \o <<w>> \o post) : pre \in Around, post \in Around, w \in WinParts(F2, 102)}
-                \cup {With(F2, Root, "file", <<w, v>>) : w \in WinParts(F2, 102), v \in WinParts(F2, 102)}
-                : p2 \in SeqsUpTo(KeyLeaves, 2)}
-    [] GMode = "g3" ->
-         UNION {LET F3 == With(GBase, 103, "bytes", p3) IN
-                UNION {LET F2 == With(F3, 102, "bytes", p2) IN
-                       {With(F2, Root, "file", pre \o <<w>>) : pre \in Around, w \in WinParts(F2, 102)}
-                       \cup {With(F2, Root, "file", <<w, v>>) : w \in WinParts(F2, 102),
-                                 v \in {x \in WinParts(F3, 103) : x.off = 1 \/ (x.off = 0 /\ x.size = 1)}}
-                       : p2 \in {<<w3>> : w3 \in WinParts(F3, 103)}
-                            \cup {<<w3, BlobPart(2, 0, 2)>> : w3 \in WinParts(F3, 103)}
-                            \cup {<<BlobPart(1, 1, 2), w3>> : w3 \in WinParts(F3, 103)}}
-                : p3 \in Deep3}
-    [] OTHER -> {GBase}
+(* The families, as predicates on the tree (nested quantifiers: TLC enumerates the initial states one by one
+   instead of first building and normalising one huge set of forests). *)
+P2Of(F3) == {<<w3>> : w3 \in WinParts(F3, 103)}
+            \cup {<<w3, BlobPart(2, 0, 2)>> : w3 \in WinParts(F3, 103)}
+            \cup {<<BlobPart(1, 1, 2), w3>> : w3 \in WinParts(F3, 103)}
+GTree(F) ==
+  CASE GMode = "g1" -> \E ps \in SeqsUpTo(AllLeaves, IF GWide THEN 3 ELSE 2) \cup [1..3 -> KeyLeaves \cup {BlobPart(2, 0, 3)}] \cup {<<>>} :
+                          F = With(GBase, Root, "file", ps)
+    [] GMode = "g2" -> \E p2 \in SeqsUpTo(KeyLeaves, 2) :
+                          LET F2 == With(GBase, 102, "bytes", p2) IN
+                          \/ \E pre \in Around, post \in Around, w \in WinParts(F2, 102) : F = With(F2, Root, "file", pre \o <<w>> \o post)
+                          \/ \E w \in WinParts(F2, 102), v \in WinParts(F2, 102) : F = With(F2, Root, "file", <<w, v>>)
+    [] GMode = "g3" -> \E p3 \in Deep3 :
+                          LET F3 == With(GBase, 103, "bytes", p3) IN
+                          \E p2 \in P2Of(F3) :
+                             LET F2 == With(F3, 102, "bytes", p2) IN
+                             \/ \E pre \in Around, w \in WinParts(F2, 102) : F = With(F2, Root, "file", pre \o <<w>>)
+                             \/ \E w \in WinParts(F2, 102), v \in {x \in WinParts(F3, 103) : x.off = 1 \/ (x.off = 0 /\ x.size = 1)} :
+                                   F = With(F2, Root, "file", <<w, v>>)
+    [] OTHER -> F = GBase
 
 (* ---- case matrices ---- *)
 Ki == 1024
@@ -66,7 +67,7 @@ DCounts(max) == {0, 1, max - 1, max, max + 1, max * max - 1, max * max, max * ma
                   \cup (IF GWide THEN {2 * max, 2 * max + 1, max * max * max + 1} ELSE {})
 DCases == UNION {{[max |-> m, n |-> n] : n \in DCounts(m)} : m \in {3, 10}}
 
-GInit == /\ rF \in GTrees /\ rRoot = Root /\ rPos = 0 /\ rReply = NoReply
+GInit == /\ GTree(rF) /\ rRoot = Root /\ rPos = 0 /\ rReply = NoReply
          /\ WIdle /\ SIdle
 GSpec == GInit /\ [][UNCHANGED vars]_vars
 
